@@ -67,7 +67,39 @@ def corpusOutcomeJson (o : Outcome) : Json :=
     ("not_found_name", jOptStr (o.notFound.map (fun p => toStr p.1))),
     ("not_found", jOptStr (o.notFound.map (fun p => toStr p.2.flatten)))]
 
-/-- op corpus_create: the model of `pyndl.corpus.create_corpus_from_gz` -/
+/-- the two decidable predicates of `PyndlModel/Corpus.lean` evaluated on one
+    document: `times_exact` = `TimesExact fps brk d` (the document is in the
+    class for which the rounding argument is made), `compare_agrees` =
+    `CodeCompareAgrees fps brk d` (the hypothesis of the exact-time theorems of
+    C19: doubles and rationals order every comparable pair of times alike),
+    `lit_domain` = every time value of the document is in `LitDomain` (the
+    model's `float()` is the code's; implied by `times_exact`) -/
+def docFlags (brk : Rat) (d : Document) : List (String × Json) :=
+  [("times_exact", Json.bool (decide (TimesExact specFps brk d))),
+   ("lit_domain", Json.bool ((allTags d).all (fun t => LitDomain t.value))),
+   ("compare_agrees", Json.bool (decide (CodeCompareAgrees specFps brk d)))]
+
+/-- add fields to a JSON object -/
+def withFields (j : Json) (fs : List (String × Json)) : Json :=
+  fs.foldl (fun acc kv => acc.setObjVal! kv.1 kv.2) j
+
+/-- per document among the `.gz` files (sorted order, joined path): its flags -/
+def treeFlags (directory : Str) (tree : List (Str × Entry)) : List (String × Json) :=
+  let docs := (gzFiles directory tree).filterMap (fun p =>
+    match p.2 with
+    | .doc d => some (p.1, d)
+    | _ => none)
+  [("docs", Json.arr (docs.map (fun pd =>
+      Json.mkObj (("path", Json.str (toStr pd.1)) :: docFlags specBreak pd.2))).toArray),
+   ("all_times_exact", Json.bool (docs.all (fun pd => decide (TimesExact specFps specBreak pd.2)))),
+   ("all_compare_agrees", Json.bool (docs.all (fun pd => decide (CodeCompareAgrees specFps specBreak pd.2))))]
+
+/-- op corpus_create: the model of `pyndl.corpus.create_corpus_from_gz`.
+    Besides the outcome: `docs` = for every document among the `.gz` files (in
+    sorted order) `{path, times_exact, compare_agrees}`, and the conjunctions
+    `all_times_exact`, `all_compare_agrees` (the hypothesis `hC` of
+    `C19.corpus_eq` / `not_found_listed` / `corpus_error_prefix` for this
+    request). -/
 def opCorpusCreate (j : Json) : M Json := do
   let tree ← (← getArr j "tree").toList.mapM asTreeItem
   let directory := ofStr (← getStr j "directory")
@@ -75,20 +107,24 @@ def opCorpusCreate (j : Json) : M Json := do
   let n ← getNat j "n_threads"
   let existing := (← asStrList (← j.getObjVal? "existing")).map ofStr
   let w : World := ⟨getBoolD j "dir_exists" true, existing⟩
+  let flags := treeFlags directory tree
   if wantsRat j then
-    pure (corpusOutcomeJson (createCorpus specCfg n directory outfile w tree))
+    pure (withFields (corpusOutcomeJson (createCorpus specCfg n directory outfile w tree)) flags)
   else
-    pure (corpusOutcomeJson (createCorpus specCfgF n directory outfile w tree))
+    pure (withFields (corpusOutcomeJson (createCorpus specCfgF n directory outfile w tree)) flags)
 
-/-- op corpus_read_clean: `list(read_clean_gzfile(path, break_duration=…))` -/
+/-- op corpus_read_clean: `list(read_clean_gzfile(path, break_duration=…))`.
+    Besides `lines` / `err`: `times_exact` and `compare_agrees` for the document
+    and the break duration of the request (the hypothesis `hC` of
+    `C19.clean_document_code`). -/
 def opCorpusReadClean (j : Json) : M Json := do
   let d ← asDocument (← j.getObjVal? "doc")
   let brk ← getBreak j
   let r := if wantsRat j then readClean (cfgQ specFps brk specMarker) d
            else readClean (cfgF specFps brk specMarker) d
   match r with
-  | .error e => pure (jErr e)
-  | .ok ls => pure (Json.mkObj [("lines", jStrs (ls.map toStr))])
+  | .error e => pure (withFields (jErr e) (docFlags brk d))
+  | .ok ls => pure (withFields (Json.mkObj [("lines", jStrs (ls.map toStr))]) (docFlags brk d))
 
 /-- op corpus_parse_time: `_parse_time_string` as an exact rational -/
 def opCorpusParseTime (j : Json) : M Json := do
